@@ -16,8 +16,27 @@ func Now() time.Time {
 	if x == nil {
 		return time.Now()
 	}
-	x.nowCtr++
-	return timeBase.Add(time.Duration(x.clock + x.nowCtr))
+	// A reading that is a function of the happens-before DAG (not of the interleaving): the clock plus
+	// a Lamport-style component (sum of the thread's vector clock), made unique within the execution.
+	var l int64
+	if t := x.cur; t != nil {
+		t.vc.tick(t.id)
+		for _, c := range t.vc {
+			l += int64(c)
+		}
+	} else {
+		x.nowCtr++
+		l = x.nowCtr
+	}
+	v := x.clock + l*64
+	if x.nowSeen == nil {
+		x.nowSeen = map[int64]bool{}
+	}
+	for x.nowSeen[v] {
+		v++
+	}
+	x.nowSeen[v] = true
+	return timeBase.Add(time.Duration(v))
 }
 
 func Since(t time.Time) time.Duration { return Now().Sub(t) }
@@ -34,10 +53,12 @@ func Sleep(d time.Duration) {
 	}
 	if d <= 0 {
 		x.point(&pend{desc: "sleep 0"})
+		x.hbEvent(nil, kSleep, 0)
 		return
 	}
 	due := x.clock + int64(d)
 	x.point(&pend{desc: "sleep " + d.String(), due: due, ready: func() bool { return x.clock >= due }})
+	x.hbEvent(nil, kSleep, uint64(due))
 	x.tracef("woke from sleep %s (clock %s)", d, time.Duration(x.clock))
 }
 
